@@ -122,6 +122,21 @@ CLAIMED = {
          "main theorem: a handler's own Content-Length is truthful; trusted: Coq kernel, extraction, lib/srv.py, python strict parser",
     technique="Coq proof over executable model + differential correspondence (extracted OCaml vs real lighttpd over loopback, fault-injected) + strict RFC 9112 parser monitor",
     design="5/C04"),
+ "C19": dict(
+    text="Coq theorems over an executable model of mod_deflate's decisions and cache (Accept-Encoding scanning and choice among allowed encodings, "
+         "eligibility tests, ETag rewrite and revalidation, cache lookup / compress-to-temporary / publish-by-rename under a fault script): the coding "
+         "chosen is a token the client listed and the configuration allows; coded tags differ from identity tags and are injective; for every history "
+         "of source changes (each with a fresh tag), failed cache writes and kills, every body sent is the coding of the content current at that "
+         "moment, hence decodes to the identity representation (zlib is a section variable assumed invertible); tied by differential correspondence "
+         "against the real lighttpd (plan per request) and a monitor that decodes every body with zlib and compares it with the file on disk, "
+         "across histories with file replacement, 20 % short writes / ENOSPC on cache files and SIGKILL during compression with restart",
+    note="zlib itself is outside the model (assumed invertible; the monitor checks it on every response); hypothesis: the entity tag changes "
+         "whenever the file changes (runs use server.stat-cache-engine = disable and replace files by rename); q-values are ignored by lighttpd "
+         "(gzip;q=0 still selects gzip: listed, so not judged); a failed cache write makes the request fail (refused, not judged); temporary cache "
+         "files survive a SIGKILL under their own name (never served); brotli/zstd/bzip2 not built; trusted: Coq kernel, extraction, lib/srv.py, "
+         "harness/faultio.c, python zlib",
+    technique="Coq proof over executable model + differential correspondence (extracted OCaml vs real lighttpd, fault-injected) + decode-and-compare monitor",
+    design="5/C19"),
  "C09": dict(
     text="Coq theorems over an executable model of the request side of the gateway modules (http_cgi_encode_varname and the header loop of "
          "http_cgi_headers, request-derived RFC 3875 meta-variables, FastCGI name-value pair encoding with a strict decoder, STDIN record framing, "
